@@ -127,4 +127,8 @@ type SysOpts struct {
 	TTL            time.Duration // sys.Forever / sys.Never / finite
 	CheckExistence bool
 	MaxFacts       int
+	// Timing: keep the engine's timers on (off by default in the harness).
+	Timing bool
+	// CodeProps: extra Env properties for every script (the locations' default control).
+	CodeProps map[string]interface{}
 }
